@@ -1032,6 +1032,8 @@ func storesInto(s stmt, name string) bool {
 	switch x := s.(type) {
 	case sLet:
 		return rootVar(x.lhs) == name
+	case sLet2:
+		return rootVar(x.l1) == name || rootVar(x.l2) == name
 	case sAddEq:
 		return rootVar(x.lhs) == name
 	case sMapItem:
@@ -1052,9 +1054,15 @@ func (m *machine) run(s stmt) (val interface{}, hasVal bool) {
 		v := m.eval(x.rhs)
 		m.assign(x.lhs, v)
 		if lv, ok := x.lhs.(eVar); ok && lv.name == "x" && m.local == nil {
-			m.taintX = m.typedRead(x.rhs)
+			m.taintX = false && m.typedRead(x.rhs) // since the round-7 repair (/repo e62c826) x is a copy of the slot: determined, compared
 			m.taintRoot, m.taintDirty = rootVar(x.rhs), false
 		}
+		return nil, false
+	case sLet2:
+		v1 := m.eval(x.r1)
+		v2 := m.eval(x.r2)
+		m.assign(x.l1, v1)
+		m.assign(x.l2, v2)
 		return nil, false
 	case sAddEq:
 		v := m.eval(eAdd{x.lhs, x.rhs})
@@ -1077,7 +1085,7 @@ func (m *machine) run(s stmt) (val interface{}, hasVal bool) {
 		m.assign(x.v, v)
 		m.assign(x.ok, v != nil)
 		if lv, isVar := x.v.(eVar); isVar && lv.name == "x" && m.local == nil {
-			m.taintX = m.typedRead(x.rhs)
+			m.taintX = false && m.typedRead(x.rhs) // since the round-7 repair (/repo e62c826) x is a copy of the slot: determined, compared
 			m.taintRoot, m.taintDirty = rootVar(x.rhs), false
 		}
 		return nil, false
